@@ -2,6 +2,10 @@ use serde_json::Value;
 
 pub mod c01;
 pub mod captured;
+pub mod adapters;
+pub mod deadline;
+pub mod hookproto;
+pub mod misc;
 
 #[derive(Clone, Copy, PartialEq, Eq, Debug)]
 pub enum Tier {
